@@ -236,13 +236,26 @@ pub fn run_sock(
     style: u8,
     where_: &str,
 ) -> Result<SockOutcome, Fail> {
-    let st = build_stream(syms, |i| style_of(style, i));
-    let mut peer = Peer::connect(addr).map_err(|e| {
+    let peer = Peer::connect(addr).map_err(|e| {
         Fail::new(
             format!("{}/connect", where_),
             format!("connect {}: {}", addr, e),
         )
     })?;
+    run_peer(peer, syms, depth, style, where_, true).map(|x| x.0)
+}
+
+/// Like `run_sock` over an already established peer. Returns the replies to the requests too
+/// (without the sentinel's). `can_half_close`: the transport supports shutting down one direction.
+pub fn run_peer(
+    mut peer: Peer,
+    syms: &[Sym],
+    depth: usize,
+    style: u8,
+    where_: &str,
+    can_half_close: bool,
+) -> Result<(SockOutcome, Vec<serde_json::Value>), Fail> {
+    let st = build_stream(syms, |i| style_of(style, i));
     let mut want_finals = 0usize;
     let mut start = 0usize;
     let mut k = 0usize;
@@ -277,10 +290,12 @@ pub fn run_sock(
         }
     }
     if !sentinel_seen && !eof {
-        return Ok(SockOutcome::Hung);
+        return Ok((SockOutcome::Hung, vec![]));
     }
-    peer.half_close();
-    let _ = peer.wait_eof(stall());
+    if can_half_close {
+        peer.half_close();
+        let _ = peer.wait_eof(stall());
+    }
     let bytes = peer.finish();
     let mut replies = split_replies(where_, &bytes)?;
     let end = if sentinel_seen {
@@ -300,7 +315,8 @@ pub fn run_sock(
     } else {
         End::Closed
     };
-    check_replies(where_, &st.syms, &st.exps, &replies, end).map(SockOutcome::Checked)
+    let stats = check_replies(where_, &st.syms, &st.exps, &replies, end)?;
+    Ok((SockOutcome::Checked(stats), replies))
 }
 
 fn random_sock(ctx: &mut Ctx, cases: u32) {
